@@ -64,8 +64,9 @@ type verdict = {
   mutable oracles : string list;
   mutable nontrivial : bool;
   mutable cls : string;
+  mutable model_fails : bool;   (* the MODEL's own behaviour on this input violates an oracle (a finding the model predicts) *)
 }
-let fresh () = { diffs = []; oracles = []; nontrivial = false; cls = "-" }
+let fresh () = { diffs = []; oracles = []; nontrivial = false; cls = "-"; model_fails = false }
 let diff v s = if not (List.mem s v.diffs) then v.diffs <- s :: v.diffs
 let oracle v name predicted =
   let s = name ^ (if predicted then ":P" else ":U") in
@@ -99,8 +100,10 @@ let suite_ranges t v =
     let in_d = M.discipline_b (List.rev !seen) [(b, e)] in
     if not in_d then all_d := false;
     let well_formed = M.Z.ltb b e in
+    if well_formed && not (M.subset_b (!m @ [(b, e)]) m') then v.model_fails <- true;
     if well_formed && not (M.subset_b (!iprev @ [(b, e)]) irec) then begin
       let model_drops = not (M.subset_b (!m @ [(b, e)]) m') && M.same_set_b m' irec in
+      if not (M.subset_b (!m @ [(b, e)]) m') then v.model_fails <- true;
       if in_d && !all_d then oracle v "drops_acknowledged" false
       else oracle v "drops_acknowledged_overlap" model_drops
     end;
@@ -110,6 +113,7 @@ let suite_ranges t v =
     m := m'; iprev := irec; seen := (b, e) :: !seen) (List.combine parts steps);
   List.iteri (fun k ((qb, qe), ia) ->
     let ma = M.part_exists !m qb qe in
+    if ma && not (M.subset_b [(qb, qe)] !m) then v.model_fails <- true;
     if ma <> ia then diff v ("exists@" ^ string_of_int k);
     if ia && not (M.subset_b [(qb, qe)] !iprev) then
       oracle v "exists_unreceived" (ma && not (M.subset_b [(qb, qe)] !m) && M.same_set_b !m !iprev))
@@ -178,6 +182,8 @@ let suite_chunk t v =
   let mpays, mdropped = match mst with
     | None -> diff v "model-pack-out-of-fuel"; ([], false)
     | Some st -> (M.payloads st, M.dropped st <> []) in
+  if mdropped then v.model_fails <- true;
+  if List.exists (fun (_, _, l, _) -> M.Z.leb l M.Z0) mchunks then v.model_fails <- true;
   let part_eq ((f1, b1), e1) (f2, b2, e2) = int_of_z f1 = f2 && zeq b1 b2 && zeq e1 e2 in
   if not (List.length mpays = List.length ipays &&
           List.for_all2 (fun mp ip -> List.length mp = List.length ip && List.for_all2 part_eq mp ip) mpays ipays)
@@ -316,11 +322,33 @@ let suite_queue t v =
         (match iout, mout with
          | None, None -> ()
          | Some (n, o, l, pv, sd), Some m ->
-             if not (M.name_eqb n m.M.pname) then diff v ("pop-name@" ^ k)
+             if not (M.name_eqb n m.M.pname) then begin
+               let gi = (match find_file_group n pre with Some g -> Some g.M.gname | None -> None) in
+               let gm = (match find_file_group m.M.pname pre with Some g -> Some g.M.gname | None -> None) in
+               diff v ((if gi = gm then "pop-file@" else "pop-group@") ^ k) end
              else if not (M.Z.eqb o m.M.poff && M.Z.eqb l m.M.plen) then diff v ("pop-slice@" ^ k)
              else if not (M.name_eqb pv m.M.pprev) then diff v ("pop-prev@" ^ k)
              else if not (M.Z.eqb sd m.M.psend) then diff v ("pop-send@" ^ k)
          | _ -> diff v ("pop-nil@" ^ k));
+        (* does the model itself break the predecessor rule here (the re-push finding)? *)
+        (match mout with
+         | Some m ->
+             (match find_file_group m.M.pname pre with
+              | Some g ->
+                  let order = g.M.gtag.M.torder in
+                  let f = List.find (fun f -> M.name_eqb f.M.fname m.M.pname) g.M.gfiles in
+                  if not (M.Z.eqb order M.oNONE) && not f.M.frec then begin
+                    let rec before acc = function
+                      | [] -> acc
+                      | x :: r -> if M.name_eqb x.M.fname m.M.pname then acc
+                                  else before (if M.is_alloc x then Some x.M.fname else acc) r in
+                    let e = (match before None g.M.gfiles with Some x -> x
+                             | None -> (match g.M.gdone with x :: _ -> x | [] -> [])) in
+                    let e = if M.name_eqb e m.M.pname then [] else e in
+                    if not (M.name_eqb e m.M.pprev) then v.model_fails <- true
+                  end
+              | None -> ())
+         | None -> ());
         let served = match iout with
           | Some (n, _, _, _, _) -> (match find_file_group n pre with Some g -> Some g.M.gname | None -> None)
           | None -> None in
@@ -377,10 +405,10 @@ let () =
        incr k;
        if String.length line > 0 && line.[0] <> '#' then begin
          let v = run_line line in
-         Printf.printf "%d\t%s\t%s\t%d\t%s\n" !k
+         Printf.printf "%d\t%s\t%s\t%d\t%s\t%d\n" !k
            (if v.diffs = [] then "AGREE" else "DIFF:" ^ String.concat "," (List.rev v.diffs))
            (if v.oracles = [] then "-" else String.concat "," (List.rev v.oracles))
-           (if v.nontrivial then 1 else 0) v.cls
+           (if v.nontrivial then 1 else 0) v.cls (if v.model_fails then 1 else 0)
        end
      done
    with End_of_file -> ());
